@@ -93,6 +93,7 @@ def canon(out, ops, strict=False):
     if gs is None or len(gs) != len(ops):
         return out
     seen = {}
+    subty = {}
     res = []
     for op, items in zip(ops, gs):
         sid = re.match(r"[A-Z](\d+)", op)
@@ -101,12 +102,26 @@ def canon(out, ops, strict=False):
             res.append("")
             continue
         items = [x for x in items if x != "Wm"]   # the delayed multicast response itself
+        if op[0] == "N":
+            items = sorted(items)                  # one notification per observing session, any order
+        if op[0] == "S":
+            f = op.split(",")
+            subty.setdefault((sid, f[2]), f[1])    # (a repeated id is refused while the first waits)
+        elif op[0] == "H":
+            subty[(sid, op.split(",")[2])] = "c"
         if op[0] == "F":
             keep, infl = [], set()
+            icmp = op.endswith(",4")
             for it in items:
                 if it[0] == "N" and it.endswith(".1") and (sid, it.split(".")[1]) in seen:
                     infl.add("N4.*.1" if it.startswith("N4.") else it)
                 elif it[0] == "N" and it.endswith(".0") and not strict:
+                    pass
+                elif it[0] == "N" and not strict and \
+                        (icmp or subty.get((sid, it.split(".")[1]), "c") == "n"):
+                    # the "could not determine the request" fallback naming a request that is still
+                    # held (block mode: lg_crcv entry made in coap_send): not a failure report of
+                    # a held CON (an ICMP error fails nothing; a NON is not a CON)
                     pass
                 else:
                     keep.append(it)
@@ -136,7 +151,7 @@ def mon_line(prefix, ops, out):
     toks = ["nsbound" if "E" in ops else "nsmon", prefix[2]] + list(prefix[3:3 + nsess])
     seen_ping = set()
     for op, items in zip(ops, gs):
-        if op == "E" or op[0] in "KH":
+        if op == "E" or op[0] in "KHON":
             toks += [op, "-"]
             continue
         if op[0] == "W":
@@ -159,6 +174,7 @@ def mon_line(prefix, ops, out):
                     seen_ping.add((sid, x))
                     toks += ["G%s" % sid, x]
             continue
+        items = [it for it in items if not re.match(r"Wo(@\d+)?$", it)]
         if any(("@" in it) or (it[0] == "W" and it != "Wm") for it in items):
             return None
         toks += [op, ",".join(items) if items else "-"]
@@ -218,6 +234,33 @@ def resolve_natural(ops, out):
         for sid in order:
             grp.append((per[sid][0], "T%s,0" % sid, per[sid][1]))
     return rops, grp
+
+
+def notify_oracle(ops, out):
+    """'Non-confirmable messages are not delayed by the NSTART limit', for the NON notifications the
+    library sends by itself: once the peer's registration on a server-side session was answered
+    (O -> Wo), every change of the resource (N) puts one NON notification of that session on the
+    wire at once, whatever is in flight, until a disconnect ends the observation.
+    -> None, or 'bad sid=.. op=..' """
+    gs = groups(out)
+    if gs is None or len(gs) != len(ops):
+        return None
+    observed = set()
+    for i, (op, items) in enumerate(zip(ops, gs)):
+        m = re.match(r"[A-Z](\d+)", op)
+        sid = m.group(1) if m else "-"
+        if op[0] == "O":
+            if "Wo" in items:
+                observed.add(sid)
+            else:
+                observed.discard(sid)
+        elif op[0] == "F" and not op.endswith(",4"):
+            observed.discard(sid)
+        elif op[0] == "N" and observed:
+            got = set(sid if it == "Wo" else it[3:] for it in items if it.startswith("Wo"))
+            if not observed <= got:
+                return "bad sid=%s op=%d (NON notification held back)" % (sorted(observed - got)[0], i)
+    return None
 
 
 def peer_ok(ops, out, verdict=None):
@@ -306,6 +349,8 @@ def main(run):
         cases.append(gen_nstart.gen_case(r, natural=True))
     for i in range(n_errs):
         cases.append(gen_nstart.gen_case(r, errs=True))
+    for i in range(n_errs // 3):
+        cases.append(gen_nstart.gen_prefail(r))
     lines = [gen_nstart.line_of(p, o) for p, o, _ in cases]
 
     forced_idx = [i for i, c in enumerate(cases) if not c[2].get("natural")]
@@ -366,6 +411,9 @@ def main(run):
         v, _ = vlib.run_lines_robust(model, [ml])
         if v[0] != "ok" and peer_ok(ops, c[0], v[0]):
             return "oracle", v[0]
+        nv = notify_oracle(ops, c[0])
+        if nv:
+            return "oracle", nv
         if not any(o[0] == "W" for o in ops):
             m, _ = vlib.run_lines_robust(model, [ln])
             if canon(m[0], ops) != canon(c[0], ops):
@@ -404,6 +452,8 @@ def main(run):
             continue
         elif verdict.get(i, "unparsed") != "ok" and peer_ok(ops, co, verdict.get(i)):
             kind, what = "oracle", "history rejected by the property checker (%s)" % verdict.get(i, "unparsed")
+        elif notify_oracle(ops, co):
+            kind, what = "oracle", "a NON is delayed by NSTART (%s)" % notify_oracle(ops, co)
         elif not nat and canon(model_out.get(i, "<missing>"), ops) != canon(co, ops):
             kind, what = "tie", "implementation differs from the proved model"
         elif nat and not nat_agrees(i, prefix, ops, co, nat_model.get(i))[0]:
@@ -453,6 +503,9 @@ def main(run):
         sweep_cfgs = [(1, 1, True, "c"), (2, 1, False, "c"), (1, 2, True, "s")]
         sw = [(p, o) for (ns_, rt, e0, kd) in sweep_cfgs
               for p, o in gen_nstart.enum_cases(depth, ns_, rt, e0, client=(kd == "c"))]
+        # ... handshake pending at the start, every CON an Observe registration in block mode (the
+        # request has its lg_crcv entry while it is held)
+        sw += list(gen_nstart.enum_cases(depth - 1, 2, 1, False, observe=True))
         # ... all messages with ONE token, NSTART 3 >= number of submissions (so nothing with that
         # token is ever held): cancel by token removes several send-queue nodes at once
         sw += list(gen_nstart.enum_cases(depth - 1, 3, 1, True, sametok=True))
